@@ -763,9 +763,15 @@ HOSTILE_PAGES = {
                     '<a href="mailto:&#xD800;">m</a></html>',
     'long-path': '<html><a href="/%s/f.txt">l</a><a href="/%s">n</a><a href="/sibling">s</a></html>'
                  % ('/'.join(['d' * 120] * 40), 'n' * 5000),
+    'inline-css': '<html><style>body{background:url(/i.png)} @import "/s.css";</style>'
+                  '<p style="background:url(/j.png)">p</p><p style="color:red">q</p>'
+                  '<a href="/sibling">s</a></html>',
     'bad-hrefs': '<html><a href="http://[::1">a</a><a href="http://a:b/">b</a>'
                  '<a href="/sibling">s</a><img src="http://[bad"><a href="//">c</a>'
-                 '<link rel="stylesheet" href="http://%zz"></html>',
+                 '<link rel="stylesheet" href="http://%zz">'
+                 '<style>body{background:url(http://[bad)} @import "http://[::1";</style>'
+                 '<p style="background:url(http://a:b/)">p</p>'
+                 '<object codebase="http://[cb" data="x"></object></html>',
 }
 
 
